@@ -39,6 +39,7 @@ import (
 	"github.com/snapcore/snapd/overlord/snapstate/backend"
 	"github.com/snapcore/snapd/overlord/snapstate/snapstatetest"
 	"github.com/snapcore/snapd/overlord/state"
+	"github.com/snapcore/snapd/progress"
 	"github.com/snapcore/snapd/snap"
 )
 
@@ -132,6 +133,35 @@ func (b *verifAliasBackend) RemoveSnapAliases(snapName string) error {
 	return b.real.RemoveSnapAliases(snapName)
 }
 
+// data directories are real (undoUnlinkSnap looks at them to decide whether a snap can be linked back)
+func (b *verifAliasBackend) CopySnapData(newInfo, oldInfo *snap.Info, opts *dirs.SnapDirOptions, p progress.Meter) error {
+	if err := b.fakeSnappyBackend.CopySnapData(newInfo, oldInfo, opts, p); err != nil {
+		return err
+	}
+	for _, d := range []string{newInfo.DataDir(), newInfo.CommonDataDir()} {
+		if err := os.MkdirAll(d, 0755); err != nil {
+			panic(err)
+		}
+	}
+	return nil
+}
+
+func (b *verifAliasBackend) RemoveSnapData(info *snap.Info, opts *dirs.SnapDirOptions) error {
+	if err := b.fakeSnappyBackend.RemoveSnapData(info, opts); err != nil {
+		return err
+	}
+	os.RemoveAll(info.DataDir())
+	return nil
+}
+
+func (b *verifAliasBackend) RemoveSnapCommonData(info *snap.Info, opts *dirs.SnapDirOptions) error {
+	if err := b.fakeSnappyBackend.RemoveSnapCommonData(info, opts); err != nil {
+		return err
+	}
+	os.RemoveAll(info.CommonDataDir())
+	return nil
+}
+
 // ---------------------------------------------------------------------------
 // projection
 
@@ -143,6 +173,7 @@ type verifAliasEnt struct {
 type verifAliasRec struct {
 	Dis  bool                     `json:"dis"`
 	Pend bool                     `json:"pend"`
+	Act  bool                     `json:"act"`
 	Al   map[string]verifAliasEnt `json:"al"`
 }
 
@@ -233,6 +264,7 @@ func (s *verifAliasSuite) project() *verifAliasSt {
 			ps.Inst[sp] = true
 			r.Dis = snapst.AutoAliasesDisabled
 			r.Pend = snapst.AliasesPending
+			r.Act = snapst.Active
 			for n, t := range snapst.Aliases {
 				sn := verifAliasSpecName(n)
 				if _, ok := r.Al[sn]; !ok {
@@ -325,18 +357,20 @@ func (s *verifAliasSuite) taskStatusChanged(t *state.Task, old, new state.Status
 	}
 	idx, ok := s.chainIdx[t.ID()]
 	if !ok {
-		// a task injected at run time: the spec does not know it; it must not touch aliases
+		// not logged: a task that does not touch aliases (whatever it did shows in the next logged state)
 		if verifAliasKinds[t.Kind()] {
 			s.evErr = fmt.Errorf("case %s: alias task %s injected at run time", s.caseID, t.Kind())
 		}
-		if new.Ready() {
-			s.emit(map[string]interface{}{"ev": "Other", "what": t.Kind() + ":" + new.String()})
+		if new == state.DoingStatus || new == state.UndoingStatus {
+			s.curIdx = 0
 		}
 		return
 	}
 	switch {
 	case new == state.DoingStatus:
 		s.curIdx = idx
+	case new == state.UndoingStatus:
+		s.curIdx = 0 // no faults are injected into undo handlers
 	case new == state.DoneStatus && (old == state.DoingStatus || old == state.DoStatus):
 		s.emit(map[string]interface{}{"ev": "Do", "idx": idx, "k": t.Kind()})
 	case new == state.UndoneStatus, new == state.DoneStatus && old == state.UndoStatus:
@@ -472,10 +506,13 @@ func verifAliasAnc(t *state.Task, idx map[string]int, memo map[string]map[int]bo
 func (s *verifAliasSuite) describe(op *verifAliasOp, tasks []*state.Task) []verifAliasTask {
 	memo := map[string]map[int]bool{}
 	out := make([]verifAliasTask, len(tasks))
-	lastDiscard := -1
+	lastDiscard, lastClear := -1, -1
 	for i, t := range tasks {
 		if t.Kind() == "discard-snap" {
 			lastDiscard = i
+		}
+		if t.Kind() == "clear-snap" {
+			lastClear = i
 		}
 	}
 	for i, t := range tasks {
@@ -489,6 +526,11 @@ func (s *verifAliasSuite) describe(op *verifAliasOp, tasks []*state.Task) []veri
 				d.K = "link-snap"
 			case t.Kind() == "discard-snap" && op.Kind == "remove" && i == lastDiscard:
 				d.K = "discard-snap"
+			case t.Kind() == "clear-snap" && op.Kind == "remove" && i == lastClear:
+				// removes the data of the current revision and the common data
+				d.K = "clear-snap"
+			case t.Kind() == "unlink-snap" && op.Kind == "remove":
+				d.K = "unlink-snap"
 			}
 			switch t.Kind() {
 			case "set-auto-aliases":
@@ -560,15 +602,12 @@ func (s *verifAliasSuite) runOp(c *check.C, op *verifAliasOp) {
 	for i, t := range tasks {
 		s.chainIdx[t.ID()] = i + 1
 	}
-	descr := s.describe(op, tasks)
-	for _, d := range descr {
-		s.taskKinds[d.K]++
-	}
-	// fault position
-	fidx, fmode := 0, "none"
+	full := s.describe(op, tasks)
+	// fault position (index into the full chain)
+	ffull, fmode := 0, "none"
 	if op.FIdx > 0 && op.FMode != "" {
 		var cands []int
-		for i, d := range descr {
+		for i, d := range full {
 			if d.Real == "check-rerefresh" {
 				continue
 			}
@@ -577,14 +616,42 @@ func (s *verifAliasSuite) runOp(c *check.C, op *verifAliasOp) {
 			}
 		}
 		if len(cands) > 0 {
-			fidx = cands[(op.FIdx-1)%len(cands)]
+			ffull = cands[(op.FIdx-1)%len(cands)]
 			fmode = op.FMode
 		}
 		s.lastNonNop = len(cands)
 	}
+	// the logged chain: the alias-relevant tasks plus the task the fault is aimed at; tasks that do not touch
+	// aliases ("nop") are otherwise left out (what they wait for is kept transitively in anc)
+	remap := map[int]int{}
+	descr := []verifAliasTask{}
+	var kept []*state.Task
+	for i, d := range full {
+		if d.K != "nop" || i+1 == ffull {
+			remap[i+1] = len(descr) + 1
+			descr = append(descr, d)
+			kept = append(kept, tasks[i])
+		}
+	}
+	s.chainIdx = map[string]int{}
+	for i := range descr {
+		var anc []int
+		for _, a := range descr[i].Anc {
+			if na, ok := remap[a]; ok {
+				anc = append(anc, na)
+			}
+		}
+		if anc == nil {
+			anc = []int{}
+		}
+		descr[i].Anc = anc
+		s.chainIdx[kept[i].ID()] = i + 1
+		s.taskKinds[descr[i].K]++
+	}
+	fidx := remap[ffull]
 	switch fmode {
 	case "entry":
-		s.failTaskID = tasks[fidx-1].ID()
+		s.failTaskID = kept[fidx-1].ID()
 	case "op1":
 		s.vb.arm(fidx, 1)
 	case "op2":
@@ -676,6 +743,8 @@ func (s *verifAliasSuite) reset(c *check.C, installed []string) {
 			SnapType:        "app",
 			TrackingChannel: "latest/stable",
 		})
+		c.Assert(os.MkdirAll(snap.DataDir(name, si.Revision), 0755), check.IsNil)
+		c.Assert(os.MkdirAll(snap.CommonDataDir(name), 0755), check.IsNil)
 	}
 	s.state.Unlock()
 	s.curChg = nil
@@ -857,6 +926,9 @@ func verifAliasDirected() []*verifAliasHistory {
 		// remove and reinstall
 		{ID: "d-remove", Inst: both, Steps: []verifAliasStep{decl("s1", "x", "c1"), op("refresh", "s1", "", "", ""), op("alias", "s1", "c2", "y", ""),
 			op("remove", "s1", "", "", ""), op("alias", "s2", "c1", "x", ""), op("install", "s1", "", "", "plain"), op("install", "s1", "", "", "unaliased")}},
+		// a remove failing after clear-snap leaves the snap inactive; it is then removed for good
+		{ID: "d-remove-late", Inst: both, Steps: []verifAliasStep{op("alias", "s2", "c1", "x", ""),
+			{Op: &verifAliasOp{Kind: "remove", S: "s2", FIdx: 4, FMode: "entry"}}, op("alias", "s1", "c2", "y", ""), op("remove", "s2", "", "", "")}},
 		// alias named like a snap
 		{ID: "d-namespace", Inst: []string{"s1"}, Steps: []verifAliasStep{op("alias", "s1", "c1", "s2", ""), op("install", "s2", "", "", "plain"),
 			op("unalias", "", "", "s2", ""), op("install", "s2", "", "", "plain"), op("alias", "s1", "c1", "s2", "")}},
@@ -953,12 +1025,14 @@ func (s *verifAliasSuite) TestVerifAliasesRun(c *check.C) {
 			fail()
 		}
 		nHist, nEnum = 0, 0
-	} else {
+	} else if directed := envInt("VERIF_DIRECTED", 2); directed > 0 {
 		for _, h := range verifAliasDirected() {
 			s.runHistory(c, verifAliasClone(h))
 			fail()
-			s.enumerateFaults(c, h)
-			fail()
+			if directed > 1 {
+				s.enumerateFaults(c, h)
+				fail()
+			}
 		}
 	}
 	gen := func(id string, n int) *verifAliasHistory {
